@@ -152,6 +152,25 @@ theorem isP2PKHInscription_total (s : Bytes) : (isP2PKHInscription s).isSome = t
   | false => simp
   | true => simpa using isP2PKHInscriptionParts_total parts
 
+/-- the part walk of ParseInscription never indexes outside the script (guarded) nor outside the first twelve of at
+    least twelve parts -/
+theorem inscZeroFlags_total (s : Bytes) (parts : List Bytes) (h12 : 12 ≤ parts.length) :
+    ∀ (fuel i off : Nat) (z9 z11 : Bool), (inscZeroFlags s parts fuel i off z9 z11).isSome = true := by
+  intro fuel
+  induction fuel with
+  | zero => intros; rfl
+  | succ n ih =>
+    intro i off z9 z11
+    unfold inscZeroFlags
+    by_cases hc : (i > 11 || off ≥ s.length) = true
+    · simp [hc]
+    · simp only [Bool.or_eq_true, decide_eq_true_eq, not_or, Nat.not_lt, Nat.not_le] at hc
+      have hs : s[off]? = some (s[off]'hc.2) := List.getElem?_eq_getElem hc.2
+      have hp : parts[i]? = some (parts[i]'(by omega)) := List.getElem?_eq_getElem (by omega)
+      have hn : ¬ (i > 11 || off ≥ s.length) = true := by simp; omega
+      simp only [hn, Bool.false_eq_true, ↓reduceIte, hs, hp, bind, Option.bind, pure]
+      exact ih _ _ _ _
+
 /-- For every byte string, every inspection query returns a value or an error — none of them panics. -/
 theorem inspect_no_panic (s : Bytes) :
     (scriptType s).isSome = true ∧ (isP2PK s).isSome = true ∧ (isMultiSigOut s).isSome = true ∧
@@ -218,7 +237,8 @@ theorem inspect_no_panic (s : Bytes) :
           have g11 : ∃ p, parts[11]? = some p := ⟨parts[11]'(by omega), List.getElem?_eq_getElem (by omega)⟩
           obtain ⟨p9, e9⟩ := g9
           obtain ⟨p11, e11⟩ := g11
-          simp only [e9, e11]
+          obtain ⟨z, hz⟩ := Option.isSome_iff_exists.mp (inscZeroFlags_total s parts (by omega) 12 0 0 false false)
+          simp only [e9, e11, hz]
           rfl
 
 /-- A script is reported as P2PKH exactly when it is the 25-byte template
